@@ -153,7 +153,7 @@ ASSUMPTIONS = [
 ]
 BOUNDS_TEXT = {"quick": "18 entry points x 2-3 completion kinds x 12 op pairs; P<=1", "thorough": "3 ops; P<=2"}
 MUST_REACH = {"*": ["cancel-true", "cancel-false", "waiter-checked"]}
-BUDGET = {"quick": 90.0, "thorough": 900.0}
+BUDGET = {"quick": 200.0, "thorough": 600.0}
 
 
 def plan(tier, seed):
